@@ -62,11 +62,13 @@ Differ(meta, obj, part) ==
   \cup (IF obj.iname  = meta.iname  THEN {} ELSE {IF part THEN "PIName"  ELSE "IName"})
   \cup (IF obj.rows = 0 \/ obj.idt = meta.idt THEN {} ELSE {IF part THEN "PIDtype" ELSE "IDtype"})
 
-\* an observation [meta, whole, parts, nparts] of one collection
+\* an observation [meta, whole, parts, nparts, ndivs] of one collection (nparts = .npartitions, ndivs = len(.divisions) - 1,
+\* parts = the partitions of the optimized graph, each computed through its own key)
 MetaBad(o) ==
   Differ(o.meta, o.whole, FALSE)
   \cup UNION { Differ(o.meta, o.parts[i], TRUE) : i \in DOMAIN o.parts }
-  \cup (IF o.nparts = Len(o.parts) THEN {} ELSE {"NParts"})
+  \* npartitions = number of partitions actually built = len(divisions) - 1
+  \cup (IF o.nparts = Len(o.parts) /\ o.ndivs = o.nparts THEN {} ELSE {"NParts"})
 
 MetaOK(o) == MetaBad(o) = {}
 =============================================================================
